@@ -48,9 +48,6 @@ Proof.
 Qed.
 
 
-(* a column slice at block cb: values, property count, names array, properties array, owned flag *)
-Definition cs_block (h : heap) (cb : nat) (values : val) (n : Z) (names props : val) (owned : Z) : Prop :=
-  nth_error h cb = Some (Some [values; VInt n; names; props; VInt owned]).
 
 Lemma cs_row_cnt_bs h cb values n names props owned vb ty enc v1 o1 o2 ob oty cnt data r0 :
   cs_block h cb values n names props owned -> as_ptr values = VCell vb 0 ->
